@@ -41,6 +41,11 @@ def predicate(h):
     # a successful write through ANY handle of a live entity shows through fresh objects at once
     if walks:
         for i, op in enumerate(h["ops"]):
+            ap = h["infos"][i].get("append")
+            if op[0] == "append" and h["results"][i][0] == "ok" and ap and not ap[1] and i > 0:
+                if walks[i].count(ap[0]) != walks[i - 1].count(ap[0]) + 1:
+                    out.append(("a successful append through a handle is not visible through fresh objects", i,
+                                {"op": op, "occurrences_before": walks[i - 1].count(ap[0]), "after": walks[i].count(ap[0])}))
             if op[0] == "set_attr" and op[2] in HEADER_ATTR and h["results"][i][0] == "ok":
                 tid = h["target_ids"][i]
                 w = walks[i]
@@ -58,7 +63,7 @@ def predicate(h):
 def stale_link_handle(v, h):
     """known finding: the handle was obtained from a link list (lookup_link) and that link has been removed since"""
     what, step, detail = v
-    if not what.startswith("a successful write through a handle is not visible"):
+    if not (what.startswith("a successful write through a handle is not visible") or what.startswith("a successful append through")):
         return False
     hnum = h["ops"][step][1]
     made = [i for i, (op, res) in enumerate(zip(h["ops"], h["results"])) if res[0] == "ok" and res[1] == hnum and op[0] == "lookup_link"]
